@@ -41,12 +41,14 @@ class Ctx:
     labels = {}         # id(obj) -> label
     objs = {}           # label -> obj   (keeps every node alive, so id() cannot be reused)
     snap_hooks = True   # take a snapshot of the whole forest inside every hook
+    nest = None         # plans of mode "act": what the call made by the acting hook did
 
 
 def reset(plan=None):
     Ctx.plan = plan or {"mode": "none", "ks": [], "kinds": [], "nodes": []}
     Ctx.hc = 0
     Ctx.log = []
+    Ctx.nest = None
 
 
 def new_universe():
@@ -89,6 +91,20 @@ def _raises(kind, lbl, hc):
     return kind in p["kinds"] and lbl in p["nodes"]
 
 
+def _act(hc):
+    """A re-entrant hook: the hook body itself uses the library (`am.parent = av`); whatever that call raises propagates."""
+    p = Ctx.plan
+    nest = Ctx.nest = {"lo": hc + 1, "hi": hc, "exc": "Nil", "par": {}, "ch": {}}
+    try:
+        Ctx.objs[p["am"]].parent = None if p["av"] == "Nil" else Ctx.objs[p["av"]]
+    except Exception as e:
+        nest["exc"] = exc_token(e)
+        raise
+    finally:
+        nest["hi"] = Ctx.hc
+        nest["par"], nest["ch"] = snapshot()
+
+
 def _make_hook(kind):
     def hook(self, arg):
         if Ctx.log is None:
@@ -104,6 +120,8 @@ def _make_hook(kind):
         Ctx.log.append(ev)
         if r:
             raise HookFault(hc)
+        if Ctx.plan["mode"] == "act" and Ctx.plan["ak"] == hc:
+            _act(hc)
 
     hook.__name__ = "_" + kind
     return hook
